@@ -21,6 +21,7 @@ package transport
 
 //@ func (s SlidingWindow) Check(seq uint64) (ok bool)
 //@   property C14
+//@   pure
 //@   logical S set[uint64]
 //@   requires seq < 1<<63 && winInv(s.blocks, s.wt, S)
 //@   ensures  ok <==> (!S[seq] && seq+448 >= s.wt)
@@ -28,6 +29,7 @@ package transport
 //@ func (s *SlidingWindow) Mark(seq uint64)
 //@   property C14
 //@   logical S set[uint64]
+//@   modifies s.blocks, s.wt
 //@   requires seq < 1<<63 && winInv(s.blocks, s.wt, S)
 //@   ensures  old(seq+448 >= s.wt) ==> winInv(s.blocks, s.wt, add(S, seq))
 //@   ensures  old(seq+448 >= s.wt) ==> s.wt == (seq > old(s.wt) ? seq : old(s.wt))
@@ -38,3 +40,195 @@ package transport
 //@     invariant diff == ((seq>>6) - (old(s.wt)>>6) > 8 ? 8 : (seq>>6) - (old(s.wt)>>6))
 //@     invariant forall k uint64 :: k < 8 ==> s.blocks[k] == (((k - unmaskedCurrentIndex - 1) & 7) < i ? 0 : old(s.blocks[k]))
 //@     decreases diff - i
+
+// ===========================================================================
+// C03 / C15 / C10: the per-datagram transition of an established session
+// ===========================================================================
+// The AEAD (Kravatte-SANSE, package kravatte; its own correctness is C12) is
+// abstracted: openOK(key, ad, ct) is "ct authenticates under key with
+// associated data ad", opened(...) the plaintext it then yields.
+//@ spec openOK(key Bytes, ad Bytes, ct Bytes) bool
+//@ spec opened(key Bytes, ad Bytes, ct Bytes) Bytes
+//@ spec aeadKey(a Ref) Bytes
+//@ spec ipEqual(a Bytes, b Bytes) bool
+
+//@ func kravatte.NewSANSE(key []byte) (a cipher.AEAD, err error)
+//@   assume Kravatte-SANSE construction (C12); the instance remembers its key
+//@   pure
+//@   ensures err == nil ==> a != nil && aeadKey(ref(a)) == bytes(key)
+
+//@ func (a cipher.AEAD) Open(dst []byte, nonce []byte, ciphertext []byte, additionalData []byte) (out []byte, err error)
+//@   assume interface contract of the AEAD, refined by kravatte's sanse.Open (C12): succeeds iff the tag authenticates; appends the plaintext to dst in place when it fits
+//@   modifies dst[:]
+//@   ensures err == nil <==> (len(ciphertext) >= 32 && openOK(aeadKey(ref(a)), bytes(additionalData), bytes(ciphertext)))
+//@   ensures err == nil ==> len(out) == len(dst) + len(ciphertext) - 32
+//@   ensures err == nil && cap(dst) - len(dst) >= len(ciphertext) - 32 ==> ref(out) == ref(dst) && off(out) == off(dst)
+//@   ensures err == nil && len(dst) == 0 ==> bytes(out) == opened(aeadKey(ref(a)), bytes(additionalData), bytes(ciphertext))
+
+//@ func (ip net.IP) Equal(x net.IP) (r bool)
+//@   assume standard library, abstracted
+//@   pure
+//@   ensures r <==> ipEqual(bytes(ip), bytes(x))
+
+// udpEq: same IP, port and zone (what EqualUDPAddress must decide).
+//@ macro udpEq(a, b) = a == b || (a != nil && b != nil && a.Port == b.Port && ipEqual(bytes(a.IP), bytes(b.IP)) && a.Zone == b.Zone)
+
+//@ func EqualUDPAddress(a *net.UDPAddr, b *net.UDPAddr) (r bool)
+//@   property C15
+//@   pure
+//@   ensures r <==> udpEq(a, b)
+
+//@ func PeekSession(msg []byte) (out SessionID, err error)
+//@   property C10 C03
+//@   pure
+//@   ensures err == nil <==> len(msg) >= 8
+//@   ensures err == nil ==> out[0] == msg[4] && out[1] == msg[5] && out[2] == msg[6] && out[3] == msg[7]
+
+//@ func PlaintextLen(transportLen int) (n int)
+//@   inline
+
+//@ func (ss *SessionState) readCounter(b []byte) (count uint64)
+//@   inline
+
+// readPacketLocked: a packet is accepted only if (1) its counter passed the
+// replay filter, (2) the AEAD authenticated ciphertext+tag under the session's
+// read key with the 16 header bytes as associated data, and only THEN (3) the
+// counter is marked.  On any error the replay window is untouched.
+//@ func (ss *SessionState) readPacketLocked(plaintext []byte, pkt []byte, key *[16]byte) (n int, mt MessageType, err error)
+//@   property C03 C10 C15
+//@   requires len(pkt) >= 48 && ref(plaintext) != ref(pkt) && ref(plaintext) != ref(key)
+//@   modifies ss.window.blocks, ss.window.wt, plaintext[:]
+//@   ensures err == nil ==> key != nil && openOK(bytes(*key), bytes(pkt[:16]), bytes(pkt[16:]))
+//@   ensures err == nil ==> n == len(pkt) - 48 && uint8(mt) == pkt[0] && (pkt[0] == 0x10 || pkt[0] == 0x80)
+//@   ensures err == nil ==> bytes(plaintext[:n]) == opened(bytes(*key), bytes(pkt[:16]), bytes(pkt[16:]))
+//@   ensures err == nil ==> called(transport.SlidingWindow.Check) && resultof(transport.SlidingWindow.Check, ok)
+//@   ensures err == nil ==> called(transport.SlidingWindow.Mark) && argof(transport.SlidingWindow.Mark, seq) == argof(transport.SlidingWindow.Check, seq)
+//@   ensures called(transport.SlidingWindow.Mark) ==> err == nil && called(cipher.AEAD.Open) && resultof(cipher.AEAD.Open, err) == nil &&
+//@           seqof(cipher.AEAD.Open) < seqof(transport.SlidingWindow.Mark) && seqof(transport.SlidingWindow.Check) < seqof(cipher.AEAD.Open)
+//@   ensures err != nil ==> ss.window.wt == old(ss.window.wt) && (forall k uint64 :: k < 8 ==> ss.window.blocks[k] == old(ss.window.blocks[k]))
+
+//@ func (d *common.DeadlineChan) Close() (err error)
+//@   assume queue shutdown (channels/atomics are outside the modelled heap; concurrency properties are C17)
+//@   modifies opaque(d)
+
+// closeLocked changes nothing but the session's lifecycle state (and shuts the receive queue).
+//@ func (ss *SessionState) closeLocked() (err error)
+//@   property C03 C15
+//@   modifies ss.handleState, opaque(ss.handle)
+//@   ensures ss.handleState == closed
+
+//@ func (ss *SessionState) handleControlLocked(msg []byte) (err error)
+//@   property C03 C10 C15
+//@   modifies ss.handleState, opaque(ss.handle)
+
+//@ func (s *Server) fetchSession(sessionID SessionID) (ss *SessionState)
+//@   property C03 C15
+//@   atomic
+//@   pure
+//@   nilable
+
+// handleSessionMessage (server): nothing about ANY session changes unless this
+// datagram authenticated and was fresh (readPacketLocked returned nil, which
+// entails the AEAD check and the replay filter).  In particular the peer
+// address moves only then, and only to the datagram's source address; and after
+// an authentic datagram the session's peer address equals the source address
+// (same pointer, or same IP/port/zone as before).
+//@ func (s *Server) handleSessionMessage(addr *net.UDPAddr, msg []byte) (err error)
+//@   property C15 C03 C10
+//@   atomic
+//@   ensures forall x *SessionState :: x.remoteAddr != old(x.remoteAddr) ==>
+//@        called(transport.SessionState.readPacketLocked) && resultof(transport.SessionState.readPacketLocked, err) == nil &&
+//@        x == argof(transport.SessionState.readPacketLocked, ss) && x.remoteAddr == addr
+//@   ensures forall x *SessionState :: x.handleState != old(x.handleState) ==>
+//@        called(transport.SessionState.readPacketLocked) && resultof(transport.SessionState.readPacketLocked, err) == nil &&
+//@        x == argof(transport.SessionState.readPacketLocked, ss)
+//@   ensures forall x *SessionState :: x.window.wt != old(x.window.wt) ==>
+//@        called(transport.SessionState.readPacketLocked) && resultof(transport.SessionState.readPacketLocked, err) == nil
+//@   ensures err == nil && called(transport.SessionState.readPacketLocked) ==>
+//@        (let ss = argof(transport.SessionState.readPacketLocked, ss) in (ss.remoteAddr == addr || udpEq(old(ss.remoteAddr), addr)))
+//@   ensures called(transport.SessionState.readPacketLocked) ==>
+//@        (let ss = argof(transport.SessionState.readPacketLocked, ss) in
+//@         same(argof(transport.SessionState.readPacketLocked, pkt), msg) && argof(transport.SessionState.readPacketLocked, key) == old(ss.readKey))
+
+// handleSessionMessage (client): the same transition contract for the client's single session.
+//@ func (c *Client) handleSessionMessage(addr *net.UDPAddr, msg []byte) (err error)
+//@   property C15 C03 C10
+//@   atomic
+//@   ensures forall x *SessionState :: x.remoteAddr != old(x.remoteAddr) ==>
+//@        called(transport.SessionState.readPacketLocked) && resultof(transport.SessionState.readPacketLocked, err) == nil &&
+//@        x == argof(transport.SessionState.readPacketLocked, ss) && x.remoteAddr == addr
+//@   ensures forall x *SessionState :: x.handleState != old(x.handleState) ==>
+//@        called(transport.SessionState.readPacketLocked) && resultof(transport.SessionState.readPacketLocked, err) == nil &&
+//@        x == argof(transport.SessionState.readPacketLocked, ss)
+//@   ensures forall x *SessionState :: x.window.wt != old(x.window.wt) ==>
+//@        called(transport.SessionState.readPacketLocked) && resultof(transport.SessionState.readPacketLocked, err) == nil
+//@   ensures err == nil && called(transport.SessionState.readPacketLocked) ==>
+//@        (let ss = argof(transport.SessionState.readPacketLocked, ss) in (ss.remoteAddr == addr || udpEq(old(ss.remoteAddr), addr)))
+//@   ensures called(transport.SessionState.readPacketLocked) ==>
+//@        (let ss = argof(transport.SessionState.readPacketLocked, ss) in
+//@         ss == old(c.ss) && same(argof(transport.SessionState.readPacketLocked, pkt), msg) && argof(transport.SessionState.readPacketLocked, key) == old(ss.readKey))
+
+//@ func (a cipher.AEAD) Seal(dst []byte, nonce []byte, plaintext []byte, additionalData []byte) (out []byte)
+//@   assume interface contract of the AEAD, refined by kravatte's sanse.Seal (C12)
+//@   modifies dst[:]
+//@   ensures len(out) == len(dst) + len(plaintext) + 32
+
+//@ func (ss *SessionState) writeCounter(w io.ByteWriter)
+//@   inline
+
+// sealPacketLocked: one packet per call, counter advanced exactly once on success.
+//@ func (ss *SessionState) sealPacketLocked(msgType MessageType, in []byte, key *[16]byte) (pkt []byte, err error)
+//@   property C03 C10
+//@   requires ss.rawWrite.off >= 0 && ss.rawWrite.off <= len(ss.rawWrite.buf)
+//@   modifies ss.count, ss.rawWrite, ss.rawWrite.buf[:]
+//@   ensures err == nil ==> ss.count == old(ss.count) + 1 && len(pkt) == 16 + len(in) + 32
+//@   ensures err != nil ==> ss.count == old(ss.count)
+//@   ensures ss.rawWrite.off >= 0 && ss.rawWrite.off <= len(ss.rawWrite.buf)
+
+// bytesSent: ghost count of plaintext bytes handed to the session for sending
+// (bookkeeping of successful WriteMsg calls; no run-time counterpart).
+//@ ghost bytesSent int
+
+//@ func (u UDPLike) WriteMsgUDP(b []byte, oob []byte, addr *net.UDPAddr) (n int, oobn int, err error)
+//@   assume the socket: outside the verified code; changes no program state
+//@   modifies opaque(u)
+
+//@ func (c *Handle) Close() (err error)
+//@   assume lifecycle (C17): only the session's lifecycle state changes
+//@   modifies c.ss.handleState, opaque(c)
+
+// send: the datagram goes to the session's current peer address, read in the
+// same critical section in which the packet was sealed.
+//@ func (c *Handle) send(msgType MessageType, b []byte) (err error)
+//@   property C15 C03
+//@   atomic
+//@   requires c.ss.rawWrite.off >= 0 && c.ss.rawWrite.off <= len(c.ss.rawWrite.buf)
+//@   modifies c.ss.count, c.ss.rawWrite, c.ss.rawWrite.buf[:], c.ss.handleState, opaque(c)
+//@   ensures called(transport.UDPLike.WriteMsgUDP) ==> argof(transport.UDPLike.WriteMsgUDP, addr) == old(c.ss.remoteAddr) &&
+//@        called(transport.SessionState.sealPacketLocked) && resultof(transport.SessionState.sealPacketLocked, err) == nil &&
+//@        same(argof(transport.UDPLike.WriteMsgUDP, b), resultof(transport.SessionState.sealPacketLocked, pkt)) &&
+//@        same(argof(transport.SessionState.sealPacketLocked, in), b) && argof(transport.SessionState.sealPacketLocked, msgType) == msgType
+//@   ensures err == nil ==> called(transport.UDPLike.WriteMsgUDP) && callcount(transport.UDPLike.WriteMsgUDP) == 1
+//@   ensures c.ss.rawWrite.off >= 0 && c.ss.rawWrite.off <= len(c.ss.rawWrite.buf)
+
+//@ func (c *Handle) WriteMsg(b []byte) (err error)
+//@   property C03
+//@   requires c.ss.rawWrite.off >= 0 && c.ss.rawWrite.off <= len(c.ss.rawWrite.buf)
+//@   modifies c.ss.count, c.ss.rawWrite, c.ss.rawWrite.buf[:], c.ss.handleState, opaque(c), bytesSent
+//@   ensures err == nil ==> len(b) <= MaxPlaintextSize && called(transport.Handle.send) && resultof(transport.Handle.send, err) == nil &&
+//@        same(argof(transport.Handle.send, b), b) && argof(transport.Handle.send, msgType) == MessageTypeTransport
+//@   ensures c.ss.rawWrite.off >= 0 && c.ss.rawWrite.off <= len(c.ss.rawWrite.buf)
+//@   defines err == nil ==> bytesSent == old(bytesSent) + len(b)
+//@   defines err != nil ==> bytesSent == old(bytesSent)
+
+// Write sends every byte of buf, in order, in chunks of at most MaxPlaintextSize,
+// and reports exactly the number of bytes handed over.
+//@ func (c *Handle) Write(buf []byte) (n int, err error)
+//@   property C03
+//@   requires c.ss.rawWrite.off >= 0 && c.ss.rawWrite.off <= len(c.ss.rawWrite.buf)
+//@   ensures n == bytesSent - old(bytesSent)
+//@   ensures err == nil ==> n == len(buf)
+//@   loop 1
+//@     invariant 0 <= i && total == (i < len(b) ? i : len(b)) && len(b) == len(buf) && len(b) > MaxPlaintextSize
+//@     invariant bytesSent == old(bytesSent) + total
+//@     invariant c.ss.rawWrite.off >= 0 && c.ss.rawWrite.off <= len(c.ss.rawWrite.buf)
